@@ -1,6 +1,7 @@
 package vrt
 
 import (
+	"fmt"
 	"sync"
 	"sync/atomic"
 	"unsafe"
@@ -283,7 +284,13 @@ func atomicPoint(what string, p unsafe.Pointer) {
 	x.point(what, nil)
 }
 
+// Trace, when set, receives one line per executed shared-memory operation (replay diagnostics).
+var Trace func(line string)
+
 func (x *Exec) note(kind string, p unsafe.Pointer, old, nw uint64, ok bool) {
+	if Trace != nil && x.cur != nil {
+		Trace(fmt.Sprintf("t%d(%s) %s %p old=%d new=%d ok=%v", x.cur.ID, x.cur.Name, kind, p, old, nw, ok))
+	}
 	if x.cur != nil {
 		v := nw
 		if kind == "cas" {
